@@ -24,7 +24,20 @@ def gen_e2e(ctx):
                         yield eline(c, ops)
     ctx["scopes"].append("real-socket downloads (plain, TLS 1.2, TLS 1.3) x four methods x both types x sizes 0..100000 with the 226 sent before the data")
 
+def gen_conc(ctx):
+    """several clients of one process transferring at the same time, each against its own scripted server (h_conc)"""
+    rng = ctx["rng"]
+    for rep in range(3 if ctx.get("tier") != "thorough" else 30):
+        for t in ("I", "A"):
+            for mode in "pa":
+                for n in (2, 3, 4):
+                    sizes = [rng.choice([8192, 20000, 65536, 100000, 300000]) if t == "I" else rng.choice([3000, 8192, 20000, 50000]) for _ in range(n)]
+                    yield "conc %s %s %s %s" % ("dl", t, mode, ",".join("%d.%d" % (rng.below(100000), z) for z in sizes))
+    ctx["scopes"].append("2-4 clients of one process transferring concurrently (both types, passive / active), each against its own server")
+
+
 PROP = {"id": "C03", "stages": [{"name": "client", "target": "h_client", "gen": gen_c03, "shard": 12},
-                   {"name": "e2e", "target": "h_e2e", "gen": gen_e2e, "shard": 4}], "trivial_tags": [],
+                   {"name": "e2e", "target": "h_e2e", "gen": gen_e2e, "shard": 4},
+                   {"name": "conc", "target": "h_conc", "gen": gen_conc, "shard": 6}], "trivial_tags": [],
         "rule": 'binary downloads and listings: payload sizes around the 8192-byte block x passive/active x EPSV-EPRT/PASV-PORT x IPv4/IPv6, random server write segmentation, plus random short histories; sink bytes (length + FNV-64, content when short), flush count and position compared with the payload the peer wrote. distinct = distinct scenario lines.',
         "assumptions": ["in-memory control transport (a socket_base subclass) stands in for the TCP control socket; data connections are real loopback TCP", "oracle values (read sizes, kernel-chosen ports, connect results) are taken from the implementation run"]}
